@@ -430,6 +430,43 @@ def discharge_all(obs, timeout_s):
     return results
 
 
+def verify_lemma(reg, lem, timeout_s=10.0):
+    """discharge a spec-level lemma (reg.lemma_spec)"""
+    import ast as _ast
+    t0 = time.time()
+    key = "lemma:" + lem["name"]
+    out = {"key": key, "error": None, "paths": 1, "fingerprint": None, "obligations": [], "canary_refuted": 1}
+    try:
+        ex = Explorer()
+        obs = []
+
+        def run_one(ctx):
+            it = Interp(ctx, reg, True, key)
+            env = Env(None, {})
+            for nm, sh in lem["vars"].items():
+                env.vars[nm] = it.fresh(sh, "lem." + nm)
+            for k, a in enumerate(lem["assumes"]):
+                ctx.assume(truthy(it.eval(_ast.parse(a.strip(), mode="eval").body, env)), f"lemma-hyp:{lem['name']}[{k}]")
+            for h in lem["hints"]:
+                it.eval(_ast.parse(h.strip(), mode="eval").body, env)
+            for k, g in enumerate(lem["goals"]):
+                ctx.oblige("lemma", f"{key}/goal[{k}]", truthy(it.eval(_ast.parse(g.strip(), mode="eval").body, env)),
+                           {"clause": g})
+            return "lemma"
+
+        obs = ex.explore(run_one)
+        for ob, res in zip(obs, discharge_all(obs, timeout_s)):
+            rec = {"name": ob.label, "kind": ob.kind, "clause": ob.info.get("clause", ""), "line": 0, "path": "",
+                   "verdict": res["verdict"], "backend": res["backend"], "time": round(res["time"], 4)}
+            if res.get("model_str"):
+                rec["model"] = res["model_str"]
+            out["obligations"].append(rec)
+    except (Unsupported, Budget) as e:
+        out["error"] = f"{type(e).__name__}: {e}"
+    out["wall_s"] = round(time.time() - t0, 3)
+    return out
+
+
 def verify_function(reg, key, timeout_s=10.0, budget=None):
     """generate + discharge; returns a JSON-able dict"""
     t0 = time.time()
